@@ -133,7 +133,8 @@ pub fn execute(
 /// The output location to delete before the "wiped" rerun: only a separate output location.
 fn wipe_target(opts: &crate::model::OptSpec) -> Option<String> {
     if separate_output(opts) {
-        opts.output.as_ref().map(|o| gen::normalize(o))
+        // never the working directory itself
+        opts.output.as_ref().map(|o| gen::normalize(o)).filter(|o| !o.is_empty() && !o.starts_with(".."))
     } else {
         None
     }
@@ -353,7 +354,15 @@ pub fn mention(text: &str, path: &str) -> Option<usize> {
         let end = start + path.len();
         let before_ok = match text[..start].chars().next_back() {
             None => true,
-            Some('/') => text[..start].ends_with("./"),
+            Some('/') => {
+                // only a spelling of "here" in front (`./`, `.//`, `././`): still this path
+                let head = &text[..start];
+                let lead = head.trim_end_matches(|c| c == '.' || c == '/');
+                let here = &head[lead.len()..];
+                here.starts_with('.')
+                    && !here.contains("..")
+                    && !lead.chars().next_back().map(is_path_char).unwrap_or(false)
+            }
             Some(c) => !is_path_char(c),
         };
         let after_ok = match text[end..].chars().next() {
@@ -1784,6 +1793,29 @@ pub fn generate(seed: u64) -> C11Scenario {
     scn.bad_files.dedup();
     scn.unwritable = unwritable_sources(&scn, &lay);
     scn.entries = entries;
+    // the working directory itself as OUTPUT location (`darklua process src .`), for
+    // fault-free projects: what was prepared at the former output location goes away
+    if !project.input_is_file
+        && scn.bad_files.is_empty()
+        && scn.faults.is_empty()
+        && scn.unwritable.is_empty()
+        && separate_output(&scn.opts)
+        && backend != Backend::RealFs
+        && rk.chance(1, 12)
+    {
+        let old_output = scn.opts.output.as_ref().map(|o| gen::normalize(o)).unwrap_or_default();
+        let first = gen::normalize(&project.input).split('/').next().unwrap_or("").to_owned();
+        if !old_output.is_empty() && !old_output.starts_with("..") {
+            scn.entries
+                .retain(|e| e.path != old_output && !e.path.starts_with(&format!("{}/", old_output)));
+            scn.opts.output = Some(match rk.below(3) {
+                0 => ".".to_owned(),
+                1 => "./".to_owned(),
+                _ if !first.is_empty() && !first.contains('.') => format!("{}/..", first),
+                _ => ".".to_owned(),
+            });
+        }
+    }
     // the working directory itself as input (`darklua process . ../dot-out`): a plain,
     // fault-free project is moved up so that its sources sit directly in the cwd
     if backend == Backend::SimFs
